@@ -12,7 +12,8 @@
  *
  * Script (one token list per line, produced from the TLC-exported table):
  *   case NAME
- *   life TYPE R C NF FORM REL K NLEAK (i j)* NPI pi*    start a vnacal_new_t
+ *   life TYPE R C NF FORM REL K NLEAK (i j)* NPI pi* NOISE KIT MAG ALEV
+ *                                             start a vnacal_new_t
  *   add SID EP NOMAP SR SC SDIAG MR MC NMAP map* NVALS val*
  *   solve | addcal | apply DUT MODE | saveeq | unrelated N | compare REL | free
  *     (apply MODE: 0 all calibration frequencies, 1 first/middle/last,
@@ -38,7 +39,8 @@
 #define MAXP CQ_MAXP
 #define MAXF CQ_MAXF
 #define MAXSTEPS 160
-#define MAXGRID 32
+#define MAXGRID 40
+#define KIT_MAX 640
 
 static int g_debug;
 
@@ -55,6 +57,9 @@ typedef struct step {
     int k;				/* split: reference frequency index */
     int nleak, leak[MAXP * MAXP][2];
     int npi, pi[MAXP];
+    int noise;				/* 1: m_error model + noisy readings */
+    char kit[8];			/* order in which the kit is created */
+    int mag, alev;			/* receiver gain, a/b level: powers of 10 */
     /* add */
     int sid, nomap, sr, sc, sdiag, mr, mc, nmap, map[MAXP + 2], nvals;
     char ep[10];
@@ -170,6 +175,10 @@ static void load_script(const char *path)
 	    st.npi = next_int(&p);
 	    for (int i = 0; i < st.npi; ++i)
 		st.pi[i] = next_int(&p);
+	    st.noise = next_int(&p);
+	    snprintf(st.kit, sizeof(st.kit), "%s", next_tok(&p));
+	    st.mag = next_int(&p);
+	    st.alev = next_int(&p);
 	} else if (strcmp(cmd, "add") == 0) {
 	    st.op = OP_ADD;
 	    st.sid = next_int(&p);
@@ -270,6 +279,14 @@ typedef struct life {
     int applied_ok;
     double complex applied[MAXF][MAXP * MAXP];
     double scale_k;			/* common a/b scaling (rel = scale) */
+    int noise;
+    double sigma_nf, sigma_tr;		/* declared = actual noise */
+    double gain, alevel;		/* receiver gain, a/b reference level */
+    /* the "cal kit": every non-predefined parameter this life will use,
+     * created up front in an order that differs from the order of use */
+    char kitclass[8];
+    int kit_n, kit_made;
+    struct demand { int sid, a0, b0; char kind; int handle; } kit[KIT_MAX];
 } life_t;
 
 static uint64_t g_seed;
@@ -307,6 +324,13 @@ static void life_make_nets(life_t *lp)
 	    for (int j = 0; j < lp->C; ++j)
 		if (i != j && !lp->leak_sim[i * lp->C + j])
 		    e->el[i][j] = 0.0;
+	/* overall receiver gain: what reaches the detectors is scaled */
+	for (int i = 0; i < ETS_MAXP; ++i)
+	    for (int j = 0; j < ETS_MAXP; ++j) {
+		e->el[i][j] *= lp->gain;
+		for (int c = 0; c < ETS_MAXP; ++c)
+		    e->er[c][i][j] *= lp->gain;
+	    }
     }
 }
 
@@ -350,6 +374,174 @@ static void put_ret(int ok)
 
 /* ---------------------------------------------------------------- actions */
 
+
+/* ---------------------------------------------------------------- cal kit */
+
+static bool add_map_valid(const life_t *lp, const step_t *sp)
+{
+    const int nports = sp->sr > sp->sc ? sp->sr : sp->sc;
+    bool seen[MAXP] = { false };
+
+    if (sp->nmap != nports || nports > lp->P)
+	return false;
+    for (int i = 0; i < sp->nmap; ++i) {
+	if (sp->map[i] < 1 || sp->map[i] > lp->P || seen[sp->map[i] - 1])
+	    return false;
+	seen[sp->map[i] - 1] = true;
+    }
+    return sp->sr >= 1 && sp->sc >= 1 && sp->sr <= lp->P && sp->sc <= lp->P;
+}
+
+static int kit_find(const life_t *lp, int sid, int a0, int b0, char kind)
+{
+    for (int i = 0; i < lp->kit_n; ++i) {
+	const struct demand *dp = &lp->kit[i];
+
+	if (dp->sid == sid && dp->a0 == a0 && dp->b0 == b0 &&
+		dp->kind == kind)
+	    return i;
+    }
+    return -1;
+}
+
+/* list, in order of first use, every parameter the adds of this life name */
+static void kit_collect(life_t *lp, const step_t *steps, int nsteps)
+{
+    lp->kit_n = 0;
+    for (int k = 0; k < nsteps && steps[k].op != OP_LIFE; ++k) {
+	const step_t *sp = &steps[k];
+	bool valid;
+
+	if (sp->op != OP_ADD)
+	    continue;
+	valid = add_map_valid(lp, sp);
+	for (int i = 0; i < sp->nvals; ++i) {
+	    char kind = sp->vals[i];
+	    int li = sp->sdiag ? i : i / sp->sc;
+	    int lj = sp->sdiag ? i : i % sp->sc;
+	    int a0 = 0, b0 = 0;
+
+	    if (kind == 'Z' || kind == 'O' || kind == 'S')
+		continue;
+	    if (valid) {
+		a0 = lp->pinv[sp->map[li] - 1];
+		b0 = lp->pinv[sp->map[lj] - 1];
+	    }
+	    if (kit_find(lp, sp->sid, a0, b0, kind) >= 0)
+		continue;
+	    if (lp->kit_n >= KIT_MAX)
+		die("script: cal kit too large", NULL);
+	    lp->kit[lp->kit_n++] = (struct demand){ sp->sid, a0, b0, kind, -1 };
+	}
+    }
+}
+
+/* frequency grid and values of a vector parameter */
+static int vector_grid(const life_t *lp, const struct demand *dp,
+	double *gf, double complex *gv)
+{
+    const int nf = lp->nf;
+    uint64_t fk = key6(g_seed, g_case_key, 0xF1, (uint64_t)dp->sid,
+	    (uint64_t)(dp->a0 * 16 + dp->b0), (uint64_t)dp->kind);
+    int n = 0;
+
+    if (dp->kind == 'V' || dp->kind == 'X') {
+	/* many knots: below, on, between and beyond the calibration
+	 * points; the values at the calibration points are the physical
+	 * ones, the others arbitrary */
+	static const double lo[3] = { 0.5, 0.65, 0.8 };
+	static const double hi[3] = { 1.0e9, 1.6e9, 2.3e9 };
+
+	for (int g = 0; g < 3; ++g) {
+	    gf[n] = lo[g] * lp->freq[0];
+	    gv[n] = kdisc(mix(fk, (uint64_t)(100 + g)), 0.9);
+	    ++n;
+	}
+	for (int f = 0; f < nf; ++f) {
+	    gf[n] = lp->freq[f];
+	    gv[n++] = sval(dp->sid, dp->a0, dp->b0, dp->kind, lp->fref[f], 0.0);
+	    gf[n] = lp->freq[f] + 0.4e9;
+	    gv[n++] = kdisc(mix(fk, (uint64_t)(200 + lp->fref[f])), 0.9);
+	}
+	for (int g = 0; g < 3; ++g) {
+	    gf[n] = lp->freq[nf - 1] + hi[g];
+	    gv[n] = kdisc(mix(fk, (uint64_t)(300 + g)), 0.9);
+	    ++n;
+	}
+    } else {
+	/* a grid that contains no calibration point; the data are
+	 * constant over frequency (what an interpolant does between
+	 * knots with other data is not specified) */
+	gf[0] = 0.9 * lp->freq[0];
+	gf[1] = lp->freq[0] + 0.3e9;
+	gf[2] = lp->freq[nf - 1] + 0.7e9;
+	n = 3;
+	for (int g = 0; g < n; ++g)
+	    gv[g] = sval(dp->sid, dp->a0, dp->b0, 'W', 0, fx(gf[g]));
+    }
+    return n;
+}
+
+/* create the kit's parameters: "use" in order of first use, "rev" in the
+ * opposite order, "hi8": the entry used first is created ninth, the one
+ * used second first, ... (handle numbers 8 apart used high before low) */
+static void kit_create(life_t *lp)
+{
+    int order[KIT_MAX], n = lp->kit_n;
+    bool used[KIT_MAX] = { false };
+
+    if (lp->kit_made)
+	return;
+    lp->kit_made = 1;
+    if (strcmp(lp->kitclass, "rev") == 0) {
+	for (int i = 0; i < n; ++i)
+	    order[i] = n - 1 - i;
+    } else if (strcmp(lp->kitclass, "hi8") == 0 && n >= 9) {
+	/* the demand used first is created ninth, the one used second
+	 * first, the third tenth, ...: handle numbers eight apart are
+	 * used high before low */
+	int lo = 0, hi = 8;
+
+	for (int d = 0; d < n; ++d) {
+	    int q = -1;
+
+	    if (d % 2 == 0) {
+		while (hi < n && used[hi])
+		    ++hi;
+		if (hi < n)
+		    q = hi;
+	    }
+	    if (q < 0) {
+		while (used[lo])
+		    ++lo;
+		q = lo;
+	    }
+	    used[q] = true;
+	    order[q] = d;
+	}
+    } else {
+	for (int i = 0; i < n; ++i)
+	    order[i] = i;
+    }
+    for (int q = 0; q < n; ++q) {
+	struct demand *dp = &lp->kit[order[q]];
+
+	vt_cb_reset();
+	if (dp->kind == 'P') {
+	    dp->handle = LIB(vnacal_make_scalar_parameter(lp->vcp,
+			sval(dp->sid, dp->a0, dp->b0, 'P', 0, 0.0)));
+	} else {
+	    double gf[MAXGRID];
+	    double complex gv[MAXGRID];
+	    int m = vector_grid(lp, dp, gf, gv);
+
+	    dp->handle = LIB(vnacal_make_vector_parameter(lp->vcp, gf, m, gv));
+	}
+	if (dp->handle < 0)
+	    die("cannot create parameter:", vt_cb.last);
+    }
+}
+
 static void do_setf(life_t *lp, int valid)
 {
     double fv[MAXF + 1];
@@ -374,7 +566,32 @@ static void do_setf(life_t *lp, int valid)
     vt_end_line();
 }
 
-static void do_life(life_t *lp, const step_t *sp)
+/* measurement-error model: the declared noise is the noise the harness
+ * adds to every reading.  The p-value limit is made negligible (the clause
+ * under test is about the order of additions, not about rejection rates)
+ * and the iteration tolerance tight, so that both orders converge to the
+ * same weighted solution. */
+static void do_setmerr(life_t *lp)
+{
+    double nfv[1], trv[1];
+    int rc, r2, r3;
+
+    if (!lp->alive)
+	return;
+    nfv[0] = lp->sigma_nf * lp->gain;
+    trv[0] = lp->sigma_tr;
+    vt_cb_reset();
+    rc = CALL(vnacal_new_set_m_error(lp->vnp, NULL, 1, nfv, trv));
+    vt_put("{\"e\":\"SetMErr\",\"noisy\":1");
+    put_ret(rc == 0);
+    r2 = LIB(vnacal_new_set_pvalue_limit(lp->vnp, 1.0e-200));
+    r3 = LIB(vnacal_new_set_et_tolerance(lp->vnp, 1.0e-10));
+    vt_put(",\"aux\":[%d,%d]}", r2, r3);
+    vt_end_line();
+}
+
+static void do_life(life_t *lp, const step_t *sp, const step_t *rest,
+	int nrest)
 {
     double fv[MAXF];
 
@@ -387,6 +604,12 @@ static void do_life(life_t *lp, const step_t *sp)
     lp->form = sp->form;
     lp->ci = -1;
     lp->scale_k = 1.0;
+    lp->noise = sp->noise;
+    lp->sigma_nf = 1.0e-3;
+    lp->sigma_tr = 1.0e-2;
+    lp->gain = pow(10.0, sp->mag);
+    lp->alevel = pow(10.0, sp->alev);
+    snprintf(lp->kitclass, sizeof(lp->kitclass), "%s", sp->kit);
     snprintf(lp->rel, sizeof(lp->rel), "%s", sp->rel);
     for (int i = 0; i < MAXP; ++i)
 	lp->pi[i] = lp->pinv[i] = i;
@@ -414,8 +637,10 @@ static void do_life(life_t *lp, const step_t *sp)
     lp->vnp = CALL(vnacal_new_alloc(lp->vcp,
 		sp->type >= 0 ? lib_types[sp->type] : (vnacal_type_t)99,
 		sp->R, sp->C, sp->nf));
-    vt_put("{\"e\":\"Alloc\",\"t\":\"%s\",\"r\":%d,\"c\":%d,\"nf\":%d",
-	    sp->type >= 0 ? type_names[sp->type] : "XX", sp->R, sp->C, sp->nf);
+    vt_put("{\"e\":\"Alloc\",\"t\":\"%s\",\"r\":%d,\"c\":%d,\"nf\":%d,"
+	    "\"kit\":\"%s\",\"mag\":%d,\"alev\":%d",
+	    sp->type >= 0 ? type_names[sp->type] : "XX", sp->R, sp->C, sp->nf,
+	    sp->kit, sp->mag, sp->alev);
     put_ret(lp->vnp != NULL);
     vt_put("}");
     vt_end_line();
@@ -428,9 +653,12 @@ static void do_life(life_t *lp, const step_t *sp)
     lp->cal.P = lp->P;
     lp->cal.nf = lp->nf;
     life_make_nets(lp);
+    kit_collect(lp, rest, nrest);
 
     if (strcmp(sp->rel, "nosetf") != 0)
 	do_setf(lp, 1);
+    if (lp->noise)
+	do_setmerr(lp);
 }
 
 /* own B = M A for the given sub-matrix; a is k x k (or 1 x k) */
@@ -441,11 +669,12 @@ static void make_ab(life_t *lp, int mr, int mc, const double complex *m,
     double complex scale = 1.0;
 
     vt_seed(&rng, key);
+    scale = lp->alevel;
     if (strcmp(lp->rel, "scale") == 0) {
 	vt_rng_t r2;
 
 	vt_seed(&r2, mix(key, 0x5CA1E));
-	scale = (0.2 + 3.0 * vt_unit(&r2)) * cexp(I * 6.283185307179586 *
+	scale *= (0.2 + 3.0 * vt_unit(&r2)) * cexp(I * 6.283185307179586 *
 		vt_unit(&r2));
     }
     if (ets_column_systems((ets_type_t)lp->type)) {
@@ -473,6 +702,21 @@ static void make_ab(life_t *lp, int mr, int mc, const double complex *m,
 	}
     for (int i = 0; i < mc * mc; ++i)
 	a[i] *= scale;
+}
+
+/* the noise of one reading: noise floor plus a part proportional to the
+ * reading, the same whenever the same physical reading is entered */
+static double complex reading_noise(const life_t *lp, int sid, int a0, int b0,
+	int refk, double complex m)
+{
+    vt_rng_t rng;
+
+    if (!lp->noise)
+	return 0.0;
+    vt_seed(&rng, key6(g_seed, g_case_key, 0x4015E, (uint64_t)sid,
+		(uint64_t)(a0 * 16 + b0), (uint64_t)refk));
+    return ets_cnormal(&rng, lp->sigma_nf * lp->gain) +
+	cabs(m) * ets_cnormal(&rng, lp->sigma_tr);
 }
 
 static int cmp_int(const void *a, const void *b)
@@ -576,11 +820,12 @@ static void do_add(life_t *lp, const step_t *sp)
 	    die("simulator: singular standard (b)", NULL);
     }
 
-    /* parameter handles for the given S cells */
+    /* parameter handles for the given S cells: from the cal kit */
+    kit_create(lp);
     for (int i = 0; i < sp->nvals; ++i) {
 	char kind = sp->vals[i];
 	int li = sp->sdiag ? i : i / sp->sc, lj = sp->sdiag ? i : i % sp->sc;
-	int a0 = 0, b0 = 0;
+	int a0 = 0, b0 = 0, d;
 
 	if (map_valid) {
 	    a0 = lp->pinv[sp->map[li] - 1];
@@ -590,47 +835,12 @@ static void do_add(life_t *lp, const step_t *sp)
 	case 'Z': handles[i] = VNACAL_ZERO; break;
 	case 'O': handles[i] = VNACAL_ONE; break;
 	case 'S': handles[i] = VNACAL_SHORT; break;
-	case 'P':
-	    vt_cb_reset();
-	    handles[i] = LIB(vnacal_make_scalar_parameter(lp->vcp,
-			sval(sp->sid, a0, b0, 'P', 0, 0.0)));
-	    break;
 	default:
-	    {
-		double gf[MAXGRID];
-		double complex gv[MAXGRID];
-		int n = 0;
-
-		if (kind == 'V' || kind == 'X') {
-		    /* the calibration grid plus points in between and
-		     * beyond: the values at the calibration points are
-		     * the physical ones, the others arbitrary */
-		    gf[n] = 0.8 * lp->freq[0];
-		    gv[n++] = kdisc(mix(g_case_key, (uint64_t)(sp->sid * 64 + i)), 0.9);
-		    for (int f = 0; f < nf; ++f) {
-			gf[n] = lp->freq[f];
-			gv[n++] = sval(sp->sid, a0, b0, kind, lp->fref[f], 0.0);
-			gf[n] = lp->freq[f] * 1.0 + 0.4e9;
-			gv[n++] = kdisc(mix(g_case_key, (uint64_t)(sp->sid * 64 + i + 7 * f + 3)), 0.9);
-		    }
-		} else {
-		    /* a grid that contains no calibration point; the data
-		     * are constant over frequency (what an interpolant does
-		     * between knots with other data is not specified) */
-		    gf[0] = 0.9 * lp->freq[0];
-		    gf[1] = lp->freq[0] * 1.0 + 0.3e9;
-		    gf[2] = lp->freq[nf - 1] * 1.0 + 0.7e9;
-		    n = 3;
-		    for (int g = 0; g < n; ++g)
-			gv[g] = sval(sp->sid, a0, b0, 'W', 0, fx(gf[g]));
-		}
-		vt_cb_reset();
-		handles[i] = LIB(vnacal_make_vector_parameter(lp->vcp, gf, n, gv));
-	    }
+	    if ((d = kit_find(lp, sp->sid, a0, b0, kind)) < 0)
+		die("parameter not in the cal kit", NULL);
+	    handles[i] = lp->kit[d].handle;
 	    break;
 	}
-	if (handles[i] < 0)
-	    die("cannot create parameter:", vt_cb.last);
 	++nhandles;
     }
 
@@ -642,7 +852,10 @@ static void do_add(life_t *lp, const step_t *sp)
 	for (int i = 0; i < sp->mr; ++i)
 	    for (int j = 0; j < sp->mc; ++j)
 		msub[i * sp->mc + j] = oracle_ok ?
-		    std.m[f][rowport[i] * C + colport[j]] :
+		    std.m[f][rowport[i] * C + colport[j]] +
+		    reading_noise(lp, sp->sid, lp->pinv[rowport[i] < MAXP ? rowport[i] : 0],
+			    lp->pinv[colport[j] < MAXP ? colport[j] : 0], lp->fref[f],
+			    std.m[f][rowport[i] * C + colport[j]]) :
 		    kdisc(key6(g_seed, g_case_key, 0xBAD, (uint64_t)sp->sid,
 				(uint64_t)(i * 8 + j), (uint64_t)f), 0.8);
 	if (lp->form) {
@@ -714,7 +927,10 @@ static void do_add(life_t *lp, const step_t *sp)
 	    sp->nomap, sp->sr, sp->sc, sp->sdiag);
     for (int i = 0; i < sp->nvals; ++i)
 	vt_put("%s\"%c\"", i ? "," : "", sp->vals[i] == 'Z' ? 'Z' : 'K');
-    vt_put("],\"mr\":%d,\"mc\":%d}", sp->mr, sp->mc);
+    vt_put("],\"mr\":%d,\"mc\":%d},\"h\":[", sp->mr, sp->mc);
+    for (int i = 0; i < sp->nvals; ++i)
+	vt_put("%s%d", i ? "," : "", handles[i]);
+    vt_put("]");
     put_ret(rc == 0);
 
     /* the oracle's own view of the accepted standard */
@@ -1088,36 +1304,64 @@ static void do_saveeq(life_t *lp, const char *name)
 static void do_unrelated(life_t *lp, int nscalar)
 {
     vnacal_new_t *vnp;
-    double f[2] = { 0.5e9, 7e9 };
+    double f2[2] = { 0.5e9, 7e9 };
+    const double *fv = f2;
+    int nf = 2;
     const double complex ed = 0.05 + 0.02 * I, er = 0.9 - 0.1 * I,
 	  em = 0.1 * I;
     int s11[3] = { VNACAL_SHORT, VNACAL_OPEN, VNACAL_MATCH };
     const double complex g3[3] = { -1.0, 1.0, 0.0 };
     int n = nscalar > 0 ? nscalar : 3;
+    int shared = -1;
     int ok = 1;
 
     if (!lp->alive)
 	return;
+    if (nscalar < 0) {
+	/* the unrelated calibration shares one frequency-dependent
+	 * parameter of the cal kit and is solved over the whole band */
+	kit_create(lp);
+	for (int d = 0; d < lp->kit_n && shared < 0; ++d)
+	    if (lp->kit[d].kind == 'V' || lp->kit[d].kind == 'X')
+		shared = d;
+	if (shared >= 0) {
+	    fv = lp->freq;
+	    nf = lp->nf;
+	}
+    }
     vt_cb_reset();
-    vnp = LIB(vnacal_new_alloc(lp->vcp, VNACAL_U8, 1, 1, 2));
-    if (vnp == NULL || LIB(vnacal_new_set_frequency_vector(vnp, f)) != 0)
+    vnp = LIB(vnacal_new_alloc(lp->vcp, VNACAL_U8, 1, 1, nf));
+    if (vnp == NULL || LIB(vnacal_new_set_frequency_vector(vnp, fv)) != 0)
 	ok = 0;
     for (int i = 0; i < n && ok; ++i) {
-	double complex g, mv[2];
+	double complex mv[MAXF];
 	double complex *mp[1] = { mv };
 	int h;
 
+	for (int f = 0; f < nf; ++f) {
+	    double complex g;
+
+	    if (nscalar > 0)
+		g = kdisc(key6(g_seed, g_case_key, 0x0E1, (uint64_t)i, 0, 0), 0.95);
+	    else if (i == 2 && shared >= 0)
+		g = sval(lp->kit[shared].sid, lp->kit[shared].a0,
+			lp->kit[shared].b0, lp->kit[shared].kind,
+			lp->fref[f], 0.0);
+	    else
+		g = g3[i];
+	    mv[f] = ed + er * g / (1.0 - em * g);
+	}
 	if (nscalar > 0) {
 	    /* scalar parameters the application keeps */
-	    g = kdisc(key6(g_seed, g_case_key, 0x0E1, (uint64_t)i, 0, 0), 0.95);
-	    h = LIB(vnacal_make_scalar_parameter(lp->vcp, g));
+	    h = LIB(vnacal_make_scalar_parameter(lp->vcp,
+			kdisc(key6(g_seed, g_case_key, 0x0E1, (uint64_t)i, 0, 0), 0.95)));
 	    if (h < 0)
 		ok = 0;
+	} else if (i == 2 && shared >= 0) {
+	    h = lp->kit[shared].handle;
 	} else {
-	    g = g3[i];
 	    h = s11[i];
 	}
-	mv[0] = mv[1] = ed + er * g / (1.0 - em * g);
 	if (ok && LIB(vnacal_new_add_single_reflect_m(vnp, mp, 1, 1, h, 1)) != 0)
 	    ok = 0;
     }
@@ -1125,7 +1369,8 @@ static void do_unrelated(life_t *lp, int nscalar)
 	ok = 0;
     if (ok && LIB(vnacal_add_calibration(lp->vcp, "unrelated", vnp)) < 0)
 	ok = 0;
-    vt_put("{\"e\":\"Unrelated\",\"n\":%d,\"done\":%d}", n, ok);
+    vt_put("{\"e\":\"Unrelated\",\"n\":%d,\"shared\":%d,\"done\":%d}", n,
+	    shared >= 0, ok);
     vt_end_line();
 }
 
@@ -1139,6 +1384,8 @@ static void do_compare(life_t *l1, life_t *l2, const step_t *sp)
     tau = 0.0;
     if (both) {
 	tau = tolerance(l1) + tolerance(l2);
+	if (l1->noise || l2->noise)
+	    tau += 1.0e-7;	/* iteration tolerance of the weighted solve */
 	for (int f2 = 0; f2 < l2->nf; ++f2) {
 	    int f1 = -1;
 
@@ -1203,7 +1450,7 @@ static void run_case(const char *script_id, const scase_t *cp, int index)
 	    if (cur >= 1)
 		die("script: more than two lives in case", cp->name);
 	    ++cur;
-	    do_life(&lives[cur], sp);
+	    do_life(&lives[cur], sp, sp + 1, cp->nsteps - i - 1);
 	    break;
 	case OP_ADD:	do_add(&lives[cur], sp); break;
 	case OP_SOLVE:	do_solve(&lives[cur]); break;
